@@ -313,6 +313,10 @@ def body(case):
                 if sorted(cids) != sorted(want if children else [original_root.id]):
                     fails.append(failure("copy.ids_keep", "keep_id=True but ids differ", mode=mode, rootkind=k))
             else:
+                if len(set(oids)) == len(oids) and len(set(cids)) != len(cids):
+                    fails.append(failure("copy.ids_fresh", "keep_id=False: the ids of the copy are not distinct "
+                                         "from one another (%d objects, %d ids)" % (len(cids), len(set(cids))),
+                                         mode=mode, rootkind=k, not_distinct=True))
                 reused = set(cids) & set(ids_of(doc) if mode != "template" else oids)
                 if reused:
                     fails.append(failure("copy.ids_fresh", "keep_id=False but %d id(s) of the original were "
